@@ -236,6 +236,12 @@ const maxPaths = 4096
 // path with End "backedge". Branches whose condition is constant on the path
 // are pruned. Returns ok=false if the cap was exceeded.
 func (p *Program) EnumPaths(start *ssa.BasicBlock) ([]*Path, bool) {
+	return p.EnumPathsStop(start, nil)
+}
+
+// EnumPathsStop is EnumPaths, but a path also ends (End "stop", the stop
+// block appended) when it is about to enter a block of the stop set.
+func (p *Program) EnumPathsStop(start *ssa.BasicBlock, stop map[*ssa.BasicBlock]bool) ([]*Path, bool) {
 	var out []*Path
 	ok := true
 	var cur Path
@@ -302,6 +308,15 @@ func (p *Program) EnumPaths(start *ssa.BasicBlock) ([]*Path, bool) {
 		for _, k := range take {
 			s := succs[k]
 			cur.Edge[at] = k
+			if stop[s] {
+				pa := &Path{End: "stop", Last: b.Instrs[len(b.Instrs)-1]}
+				pa.Blocks = append(pa.Blocks, cur.Blocks...)
+				pa.Blocks = append(pa.Blocks, s)
+				pa.Edge = append(pa.Edge, cur.Edge...)
+				pa.Edge = append(pa.Edge, -1)
+				out = append(out, pa)
+				continue
+			}
 			if onPath[s] {
 				pa := &Path{End: "backedge", Last: b.Instrs[len(b.Instrs)-1]}
 				pa.Blocks = append(pa.Blocks, cur.Blocks...)
